@@ -673,6 +673,9 @@ func (w *world) enabled() []string {
 		if strings.HasPrefix(e, "restart:") {
 			ok = w.on
 		}
+		if strings.HasPrefix(e, "livemin:") {
+			ok = w.on // the configuration file is re-read while the index is on
+		}
 		switch e {
 		case "spendOldest", "spendAll", "spendPay":
 			ok = n >= 1
@@ -789,6 +792,15 @@ func (w *world) event(name string) {
 		}
 		var v uint64
 		switch {
+		case strings.HasPrefix(name, "livemin:"):
+			// the operator changes AllBalances.MinValue and the node re-reads its configuration while
+			// the index is ON: the new value is only configured, the one in force stays (the node says
+			// so: "restart the node or do 'wallet off' and 'wallet on'")
+			fmt.Sscan(name[8:], &v)
+			common.LockCfg()
+			common.CFG.AllBalances.MinValue = v
+			common.UnlockCfg()
+			w.cfgMin = v
 		case strings.HasPrefix(name, "setmin:"):
 			fmt.Sscan(name[7:], &v)
 			common.LockCfg()
@@ -1660,6 +1672,17 @@ func scripts() (l []script) {
 		}
 		l = append(l, script{focus, []string{"pay3", "pay1", "restart:P2KH:ok", "pay1", "spendOldest", "restart:P2WSH:ok", "spendAll"}},
 			script{focus, []string{"restart:P2SH:rm", "pay3", "restart:P2TAP:cut0", "spendAll"}})
+	}
+	// livemin: the configured minimum changes while the index is on (configuration re-read);
+	// blocks keep adding and removing outputs whose value lies between the old and the new minimum
+	for _, focus := range []int{0, 3} { // P2PKH, P2WSH
+		for _, v := range []int{0, 999, 1001, 100001} {
+			lm := fmt.Sprint("livemin:", v)
+			l = append(l,
+				script{focus, []string{"pay3", lm, "pay3", "spendOldest", "spendAll"}},
+				script{focus, []string{"pay3", "pay1", lm, "spendNewest", "reorgEmpty", "spendAll"}},
+				script{focus, []string{"pay3", lm, "reorgPay", "disable", "enable", "pay3", "spendAll"}})
+		}
 	}
 	// sparse: the index is BUILT (wallet on, off/on, save+load) over a set that holds partly spent
 	// multi-output transactions whose live outputs are not a vout prefix (only vout 7 / only vout 0 /
